@@ -87,7 +87,9 @@ func (vc *ValidationCeremony) VerifEpochCache(height uint64) (values map[common.
 }
 
 // VerifValidationStats exposes the statistics object of the last first-pass evaluation.
-func (vc *ValidationCeremony) VerifValidationStats() *statsTypes.ValidationStats { return vc.validationStats }
+func (vc *ValidationCeremony) VerifValidationStats() *statsTypes.ValidationStats {
+	return vc.validationStats
+}
 
 // VerifAnswerCounts returns how many short / long answer payloads the qualification holds.
 func (vc *ValidationCeremony) VerifAnswerCounts() (short, long int) {
